@@ -37,7 +37,8 @@ op_strategy = st.one_of(
     st.fixed_dictionaries({"op": st.just("child"), "parent": st.integers(0, 30), "id": st.sampled_from(IDS), "type": _type, "sel": _sel}),
     st.fixed_dictionaries({"op": st.just("child"), "parent": st.integers(0, 30), "id": st.sampled_from(IDS), "type": _type, "sel": _sel}),
     st.fixed_dictionaries({"op": st.just("bad"), "kind": st.sampled_from(["dup-id", "foreign-arch", "foreign-arch", "misaligned-uid", "ancestor", "ancestor", "self",
-                                                                            "elsewhere", "malformed-id", "blank-name", "unknown-type", "empty-arches", "top-misaligned"]),
+                                                                            "elsewhere", "malformed-id", "blank-name", "unknown-type", "empty-arches", "top-misaligned",
+                                                                            "recover", "recover"]),
                            "target": st.integers(0, 30), "other": st.integers(0, 30), "id": st.sampled_from(IDS)}),
     st.just({"op": "roundtrip"}),
     st.fixed_dictionaries({"op": st.just("query"), "on": st.integers(-1, 30), "arch": st.sampled_from(ARCHES + ["src", "src", "nope", None, None]),
@@ -246,6 +247,20 @@ def history_case(case):
                     continue
                 refuses("add-variant-living-elsewhere", (ValueError,), objs[tuid].add, objs[others[op["other"] % len(others)]])
                 labels.add("refused:elsewhere")
+            elif bad == "recover":
+                # an incomplete variant (name / id of the wrong type) is refused by a nested variant, then completed by the
+                # caller and added - validly - at the top level: the earlier refusal must not have left anything behind
+                rid = "R%d" % step
+                v = new_variant(ci, rid, "%s-%s" % (tuid, rid), "variant", target["arches"], name=[None, 5][op["other"] % 2])
+                if op["other"] % 3 == 0:
+                    v.name, v.id = "n", None
+                refuses("add-incomplete-variant", (ValueError, TypeError), objs[tuid].add, v)
+                check(structure(ci) == before, "refused-add-changed-forest", lambda: "step %d (recover): keys, objects or parent links changed" % step)
+                v.id, v.uid, v.name = rid, rid, "n"
+                must("add-completed-variant-at-top-level", ci.variants.add, v)
+                forest.nodes[rid] = {"id": rid, "uid": rid, "type": "variant", "arches": list(target["arches"]), "parent": None}
+                labels.add("recovered-after-refusal")
+                before = structure(ci)
             elif bad == "malformed-id":
                 wid = ["a-b", "a b", "", "é", "x.y"][op["other"] % 5]
                 refuses("add-malformed-id", (ValueError, TypeError), objs[tuid].add, new_variant(ci, wid, "%s-%s" % (tuid, wid), "variant", target["arches"]))
